@@ -211,9 +211,9 @@ def gen_case(rng):
             r = rng.random()
             if r < 0.25:
                 it["filename"] = "g%d.%s" % (i, ext)                       # other stem, same format
-            elif r < 0.4:
+            elif r < 0.45:
                 it["filename"] = "g%d.%s" % (i, rng.choice(["txt", "json", "djson"]))   # possibly another format
-            elif r < 0.5:
+            elif r < 0.55:
                 it["filename"] = "g%d.%s" % (i, ext)
                 with_fn = False                                           # query without a file name
         q = "/".join([head] + extras + (["%s.%s" % (stem, ext)] if with_fn else []))
@@ -380,8 +380,8 @@ def observe(env, univ):
     return parts, raw
 
 
-def apply_op(env, op):
-    """returns (result text, raw result)"""
+def apply_op(env, op, prev=None):
+    """returns (result text, raw result); `prev`: raw observation before the operation"""
     from liquer.query import evaluate
     gs = env.gs
     kind = op[0]
@@ -422,7 +422,9 @@ def apply_op(env, op):
             removed = [env.local(k) for k in s.get()["removed"]]
         except Exception:
             return "XE", None
-        return "X" + keys_s(removed), removed
+        # whether keys that were never made are reported as removed is not part of the observation
+        made = [k for k in removed if prev is None or prev.get(k) is None or prev[k]["meta"] is None or prev[k]["meta"][0] != "recipe"]
+        return "X" + keys_s(made), removed
     raise ValueError(op)
 
 
@@ -484,7 +486,7 @@ def run_impl(case):
         results.append(None)
         logs = [list(log)]
         for op in case["ops"]:
-            rt, rr = apply_op(env, op)
+            rt, rr = apply_op(env, op, raws[-1])
             parts, raw = observe(env, univ)
             log = [tagkey.get(t, "?" + t) for t in CALLS]
             states.append(" ".join(["r=" + rt] + parts + ["G" + ",".join(hx(k) for k in log)]))
@@ -637,8 +639,9 @@ def oracle(case, impl):
         if op is not None and op[0] == "x":
             d = op[1]
             scope = [k for k in declared if (parent(k) == d if not op[2] else (d == "" or k.startswith(d + "/")))]
-            if res is None or sorted(res) != sorted(scope):
-                out.append(("clean-removed", "%s: clean_recipes reported %r, the declared keys in scope are %r" % (what, res, sorted(scope)), step))
+            must = [k for k in scope if before[k] != "recipe"]
+            if res is None or not set(must) <= set(res) or not set(res) <= set(scope):
+                out.append(("clean-removed", "%s: clean_recipes reported %r; the declared keys in scope are %r, of which %r had been made" % (what, res, sorted(scope), sorted(must)), step))
             for k in scope:
                 state[k] = "recipe"
         # ---- observations of every declared key
